@@ -4,7 +4,7 @@ From Coq Require Import List NArith Bool Lia String.
 From Breadlog Require Import Model.Peg Model.Text Model.Regex Model.Glue Model.Tables Model.Utf8 Model.Driver Model.History.
 From Breadlog Require Import Gen.Consts.
 From Breadlog Require Import Proofs.RewriteFacts Proofs.WorldFacts Proofs.DriverFacts Proofs.AllocFacts Proofs.RunFacts Proofs.HistoryFacts Proofs.CheckFacts.
-From Breadlog Require Import Proofs.StatementLemmas Proofs.ArgLemmas Proofs.FileSpec Proofs.CanonicalRun.
+From Breadlog Require Import Proofs.StatementLemmas Proofs.ArgLemmas Proofs.FileSpec Proofs.CanonicalRun Proofs.ValidUtf8.
 From Breadlog Require Import Properties.Common.
 Import ListNotations.
 Open Scope N_scope.
@@ -27,6 +27,23 @@ Theorem C05_check_verdict : forall rc files o,
   ro_total out = Some (lenN expected) /\
   (ro_exit out = XErr <-> expected <> []) /\ (ro_exit out = XOk <-> expected = []).
 Proof. exact (check_verdict find). Qed.
+
+(* THE REPORTED PLACE IS THE INSERTION PLACE, for EVERY text: the (line, column) an entry carries -- what --check
+   prints for it -- are the line and column, in pest's Position::line_col sense (1-based, counted in characters,
+   CR LF one break, a lone CR a column: Model/Text.v, tied by the correspondence), of the byte offset e_pos at which
+   an edit run inserts (C03).  Also for the one offset that is not a node position, directly after the bracket. *)
+Theorem C05_reported_place_is_insertion_place : forall cfg t es,
+  find cfg t = Done es -> Forall (fun e => line_col t (e_pos e) = Some (e_line e, e_col e)) es.
+Proof. exact find_line_col. Qed.
+
+(* non-vacuity: statements behind multi-byte characters, a tab, CR LF and a lone CR, both styles *)
+Example C05_place_nonvacuous :
+  let t := [252; 8364; 9; 105;110;102;111;33;40;34;97;34;41;59; 13;10; 120; 13; 128512; 32; 105;110;102;111;33;40;32;34;98;34;41;59] in
+  (exists e1 e2, find (mkConfig false [([108;111;103], [105;110;102;111])]) t = Done [e1; e2] /\
+     (e_pos e1, e_line e1, e_col e1) = (13, 1, 11) /\ (e_pos e2, e_line e2, e_col e2) = (34, 2, 13)) /\
+  (exists e1 e2, find (mkConfig true [([108;111;103], [105;110;102;111])]) t = Done [e1; e2] /\
+     (e_pos e1, e_line e1, e_col e1) = (12, 1, 10) /\ (e_pos e2, e_line e2, e_col e2) = (32, 2, 11)).
+Proof. cbv zeta. split; do 2 eexists; vm_compute; repeat split; reflexivity. Qed.
 
 (* ... and those are exactly the places where an edit run that exits 0 inserts: the same filter
    (missing_insert) selects the entries reported by check (expected_missing) and the entries
@@ -73,6 +90,7 @@ Example C05_nonvacuous :
 Proof. vm_compute. repeat split; reflexivity. Qed.
 
 Print Assumptions C05_check_verdict.
+Print Assumptions C05_reported_place_is_insertion_place.
 Print Assumptions C05_canonical_check.
 Print Assumptions C05_edit_count_is_exact.
 Print Assumptions C05_missing_predicates_agree.
